@@ -10,6 +10,7 @@ import (
 	"strings"
 	"sync/atomic"
 
+	"github.com/aml-org/amf-custom-validator/pkg"
 	"github.com/open-policy-agent/opa/ast"
 	"github.com/open-policy-agent/opa/types"
 )
@@ -22,6 +23,7 @@ type c08Case struct {
 	Builtin  string `json:"builtin"`
 	Position string `json:"position"`
 	Syntax   string `json:"syntax"`
+	Debug    bool   `json:"debug,omitempty"` // compile through the entry points with debug=true
 }
 
 var c08Positions = []string{"top-rego", "top-regoModule", "top-code-message", "path-rego", "path-regoModule", "under-not", "and-operand", "or-operand", "if", "then", "else", "in-nested", "in-atLeast", "extensions-helper", "extensions-helper-under-nested"}
@@ -227,7 +229,8 @@ func c08Gen(tier string, emit func(c08Case)) {
 		if c08Denied[n] {
 			for _, p := range c08Positions {
 				for _, s := range c08Syntaxes {
-					emit(c08Case{n, p, s})
+					emit(c08Case{n, p, s, false})
+					emit(c08Case{n, p, s, true})
 				}
 			}
 			continue
@@ -235,7 +238,7 @@ func c08Gen(tier string, emit func(c08Case)) {
 		if tier == "thorough" {
 			for _, p := range c08Positions {
 				for _, s := range c08Syntaxes {
-					emit(c08Case{n, p, s})
+					emit(c08Case{n, p, s, false})
 				}
 			}
 		} else {
@@ -244,8 +247,8 @@ func c08Gen(tier string, emit func(c08Case)) {
 			if h < 0 {
 				h = -h
 			}
-			emit(c08Case{n, c08Positions[h%len(c08Positions)], c08Syntaxes[(h/7)%len(c08Syntaxes)]})
-			emit(c08Case{n, "top-rego", "assign"})
+			emit(c08Case{n, c08Positions[h%len(c08Positions)], c08Syntaxes[(h/7)%len(c08Syntaxes)], false})
+			emit(c08Case{n, "top-rego", "assign", h%2 == 0})
 		}
 	}
 }
@@ -314,7 +317,7 @@ func c08Run(c *Ctx, cs c08Case) {
 	code := c08Code(b, syntax)
 	prof := c08Profile(code, cs.Position)
 	before := atomic.LoadInt64(&c08NetAttempts)
-	q, cr := Compile(prof)
+	q, cr := CompileDebug(prof, cs.Debug)
 	c.Eval(1)
 	if cr.Panic != nil {
 		c.Violate("C08 panic compiling embedded rego at "+cr.Panic.Sig(), prof+"\n"+cr.Panic.Value, nil)
@@ -326,7 +329,11 @@ func c08Run(c *Ctx, cs c08Case) {
 			// accepted: evaluate once so that the attempt is part of the record
 			r := ValidateCompiled(q, c08Data)
 			after := atomic.LoadInt64(&c08NetAttempts)
-			c.Violate("C08 denied built-in "+cs.Builtin+" accepted",
+			dbg := ""
+			if cs.Debug {
+				dbg = " (debug=true)"
+			}
+			c.Violate("C08 denied built-in "+cs.Builtin+" accepted"+dbg,
 				fmt.Sprintf("position=%s syntax=%s\ncode: %s\nevaluation: err=%v report=%d bytes; network attempts recorded during this case: %d\nprofile:\n%s", cs.Position, cs.Syntax, code, r.Err, len(r.Report), after-before, prof), nil)
 			c.Outcome("denied built-in ACCEPTED")
 			return
@@ -336,7 +343,9 @@ func c08Run(c *Ctx, cs c08Case) {
 			c.Violate("C08 denied built-in rejected for another reason (template not probing the deny-list)", fmt.Sprintf("builtin=%s position=%s syntax=%s\nerror: %v\ncode: %s", cs.Builtin, cs.Position, cs.Syntax, cr.Err, code), nil)
 		}
 		// Validate with the text must fail too, and nothing may have been attempted
-		r := Validate(prof, c08Data)
+		r := protect(func() (string, error) {
+			return pkg.ValidateWithConfiguration(prof, c08Data, cs.Debug, nil, Epoch2000, DefaultReportConf())
+		})
 		c.Eval(1)
 		if r.Err == nil {
 			c.Violate("C08 Validate accepts a profile that CompileProfile rejects", prof, nil)
